@@ -220,7 +220,7 @@ func RunC14(r *core.Run) {
 	})
 	st.Exhaustive = true
 	st.Space = es2.Desc() + fmt.Sprintf(" after each of %v", schemeVariants[3:])
-	r.Stage("generated+mutated", r.Pick(300000, 10000000), func(w *core.Worker, idx int64) {
+	r.Stage("generated+mutated", r.Pick(1500000, 30000000), func(w *core.Worker, idx int64) {
 		rr := core.NewRand(r.Seed, 0xC14, 3, uint64(idx))
 		var u []byte
 		switch rr.Intn(4) {
@@ -379,6 +379,23 @@ func checkRelocate(w *core.Worker, rr *core.Rand, u []byte, big []byte) {
 								return
 							}
 						}
+						// a relocated URI is still a parsed URI: it must be movable again
+						t2 := (t*7 + 13) % (65535 - n)
+						q2 := q
+						var ok2 bool
+						pan2, pmsg2, _ := core.Guard(func() { ok2 = q2.AdjustOffs(sipsp.PField{Offs: sipsp.OffsT(t2), Len: sipsp.OffsT(n)}) })
+						if pan2 || !ok2 {
+							fail("relocate-twice", fmt.Sprintf("URI %q relocated to %d cannot be relocated again to {%d,%d}: ok=%v panic=%q", u, t, t2, n, ok2, pmsg2), d)
+							return
+						}
+						copy(big[t2:], u)
+						nf2 := []sipsp.PField{q2.Scheme, q2.User, q2.Pass, q2.Host, q2.Port, q2.Params, q2.Headers}
+						for i := range of {
+							if int(nf2[i].Offs)+int(nf2[i].Len) > t2+n || of[i].Len != nf2[i].Len || !bytes.Equal(nf2[i].Get(big), of[i].Get(u)) {
+								fail("relocate-twice-component", fmt.Sprintf("URI %q relocated to %d and then to %d: component %d was %v=%q, now %v", u, t, t2, i, of[i], of[i].Get(u), nf2[i]), d)
+								return
+							}
+						}
 					}
 				}
 			} else {
@@ -399,7 +416,7 @@ type c18scratch struct{ big []byte }
 
 // RunC18 is the monitor for C18.
 func RunC18(r *core.Run) {
-	r.Rule = "case = one accepted URI x (target offset t, span length l): AdjustOffs({t,l}) on a copy of the parsed URI for every l in 0..len+3 at t in {0,1,255,4096,65535-len-3,65535-len,random}: l >= len => true and every component yields the same bytes from a buffer holding the URI at t (PortNo/URIType unchanged, views shift along); l < len => false and the structure is bit-identical; Long() = scheme..last non-empty component, Short() = scheme..port/host/user and a prefix of Long(), Flat() = bytes of Long(), Truncate() clears exactly parameters and headers; non-trivial = accepted URIs; distinct by construction / hash"
+	r.Rule = "case = one accepted URI x (target offset t, span length l): AdjustOffs({t,l}) on a copy of the parsed URI for every l in 0..len+3 at t in {0,1,255,4096,65535-len-3,65535-len,random}: l >= len => true and every component yields the same bytes from a buffer holding the URI at t (PortNo/URIType unchanged, views shift along); l < len => false and the structure is bit-identical; Long() = scheme..last non-empty component, Short() = scheme..port/host/user and a prefix of Long(), Flat() = bytes of Long(), Truncate() clears exactly parameters and headers; a relocated URI can be relocated again (two-step history); non-trivial = accepted URIs; distinct by construction / hash"
 	r.Assume = []string{"the URI length is the consumed length reported by ParseURI (== input length for accepted URIs, C14)"}
 	L := int(r.Pick(5, 6))
 	es := NewEnum(":@;?&=[].a1", L)
@@ -421,7 +438,7 @@ func RunC18(r *core.Run) {
 	})
 	st.Exhaustive = true
 	st.Space = es.Desc() + " after each of sip: sips: tel: (the accepted ones are relocated)"
-	r.Stage("generated", r.Pick(60000, 2000000), func(w *core.Worker, idx int64) {
+	r.Stage("generated", r.Pick(200000, 5000000), func(w *core.Worker, idx int64) {
 		rr := core.NewRand(r.Seed, 0xC18, 2, uint64(idx))
 		u := []byte(gen.URI(rr).String())
 		if rr.Intn(4) == 0 {
